@@ -272,7 +272,7 @@ pub fn run(ctx: &mut Ctx) {
         }
     }
     // ---- random blocks of 0..6 lines
-    let n = ctx.budget(400_000, 12_000_000) / ctx.nshards;
+    let n = ctx.budget(400_000, 120_000_000) / ctx.nshards;
     let mut rng = ctx.rng.fork(0xC15);
     for i in 0..n {
         let k = rng.below(7);
